@@ -55,6 +55,17 @@ CLAIMS = {
                      "(so its single conditional subtraction is canonical), u64 and u32; the inversion chain raises to l-2; every raw construction Scalar{bytes} in the three crates is of a reviewed kind and every pack() receives the output of a reducing kernel; "
                      "from_canonical_bytes' flag depends on is_canonical = ct_eq(self, reduce(self)); integer conversions write the little-endian bytes at offset 0 of a zeroed array",
                 note="partial; relies on A1/A2 and on the constants decided by C12", ref="10.6"),
+    "C04": dict(cat="other", tech="may-write / may-read index analysis of the digit arrays on the interval abstract interpreter (ABSINT)",
+                text="Decides necessary conditions only, NOT that the result equals the sum of s_i*P_i (group arithmetic; stated as not decided): every digit position a recoding must be able to produce is written by some execution "
+                     "(non_adjacent_form w=5..8: 256; as_radix_16: 64; as_radix_2w w=5..8: ceil(256/w)(+1 for 256)); in every scalar-multiplication routine - serial and AVX2 copies of variable-base, vartime double-base, Straus (both), Pippenger, "
+                     "precomputed Straus, the five basepoint-table radices (>=10 routines per configuration) - every digit position the recoder may leave non-zero is read by some execution (index intervals over-approximate, so an uncovered position is "
+                     "provably never accessed). Digit ranges fitting the lookup tables are C11's select() obligations",
+                note="partial; a may-analysis: it proves digits are dropped, it cannot prove they are combined with the right weights", ref="10.6"),
+    "C05": dict(cat="other", tech="dispatch-site rule (arm completeness, same-name sibling, argument order) + set comparison of the exported API across backend configurations",
+                text="Decides necessary conditions only, NOT byte-equality of outputs across configurations (relational, value-level; stated as not decided): each of the 9 run-time dispatchers has one arm per compiled backend kind and every arm forwards the dispatcher's own parameters "
+                     "in order to the same-named routine of that backend's module; the exported API (paths + signatures outside backend::) is identical across simd / serial64 / serial32 / fiat64 (thorough: + fiat32, ifma, no-tables pairs). "
+                     "Per-configuration facts it rests on are decided elsewhere: constants (C12), limb invariants (C11), digit coverage of every copy (C04)",
+                note="partial; the surface comparison is on resolved items of each configuration's own compilation", ref="10.6"),
     "C12": dict(cat="proof", tech="exhaustive comparison of compiler-evaluated constants with an independent big-integer oracle (static: no repository code run)",
                 text="Every const/static of the three crates (field, scalar, point, table, vector-lane and ff constants), as evaluated by rustc and decoded by type layout, "
                      "equals its mathematical definition; exhaustive over all 2x(256+64) serial and 64(+64) vector table entries and every limb representation; quick = simd(u64+AVX2)+u32, thorough = all 8 configurations",
@@ -78,8 +89,6 @@ CLAIMS = {
 }
 
 NA_REASON = {
-    "C04": "value-level: equality of each algorithm's output with sum s_i*P_i is a group-arithmetic identity over all inputs; only digit-range side conditions are statically decidable and they are decided inside C11. See DESIGN.md",
-    "C05": "cross-configuration byte equality of outputs for all inputs is a relational value-level property; static agreement of sibling implementations cannot establish equality of numerical results. See DESIGN.md",
 }
 
 m = {
@@ -96,7 +105,7 @@ m = {
         {"name": "mirfacts", "path": "mirfacts/", "serves_properties": sorted(CLAIMS), "kind_free_text": "rustc_private driver: exports resolved MIR, ADTs, impls and const-evaluated constants per crate and configuration"},
         {"name": "CONSTS", "path": "lib/eng_consts.py", "serves_properties": ["C12", "C17"], "kind_free_text": "constants vs big-integer oracle"},
         {"name": "TAINT/ZEROIZE", "path": "lib/eng_taint.py props/C14.py", "serves_properties": ["C10", "C14"], "kind_free_text": "interprocedural taint with transfer summaries and points-to; drop/zeroize field coverage; heap typestate"},
-        {"name": "ABSINT", "path": "lib/absint.py lib/absint_models.py lib/eng_absint.py", "serves_properties": ["C01", "C02", "C11", "C15"], "kind_free_text": "interval abstract interpreter over checked-mode MIR with inductive type invariants"},
+        {"name": "ABSINT", "path": "lib/absint.py lib/absint_models.py lib/eng_absint.py", "serves_properties": ["C01", "C02", "C04", "C11", "C15"], "kind_free_text": "interval abstract interpreter over checked-mode MIR with inductive type invariants"},
         {"name": "EXPCHAIN", "path": "lib/eng_expchain.py", "serves_properties": ["C01", "C02"], "kind_free_text": "monomial abstract domain (exponent vectors) over the addition chains, on the generic MIR interpreter"},
         {"name": "PATH", "path": "lib/mirlib.py lib/pathlib2.py lib/ex.py", "serves_properties": [p for p in ["C03", "C06", "C07", "C08", "C09", "C13", "C16", "C17"] if p in CLAIMS],
          "kind_free_text": "dominance (edge-removal reachability), value-flow slices, expression trees, ORDER, guard implication"},
